@@ -532,8 +532,10 @@ pub fn stun_verdict(m: &[u8], _ctx: &AppCtx) -> AppVerdict {
                 if al != 4 {
                     return AppVerdict::Unspecified("stun-change-request-size".into());
                 }
+                // several CHANGE-REQUESTs: the response comes from the next port if ANY of them
+                // carries the change-port flag (and only one port further: C03)
                 change_ports += 1;
-                change_port = u32::from_be_bytes([v[0], v[1], v[2], v[3]]) & 2 != 0;
+                change_port |= u32::from_be_bytes([v[0], v[1], v[2], v[3]]) & 2 != 0;
             }
             0x0001 => {
                 // MAPPED-ADDRESS in a request: must at least be well-formed
@@ -546,9 +548,7 @@ pub fn stun_verdict(m: &[u8], _ctx: &AppCtx) -> AppVerdict {
         }
         i += 4 + al;
     }
-    if change_ports > 1 {
-        return AppVerdict::Unspecified("stun-multiple-change-requests".into());
-    }
+    let _ = change_ports;
     let mut id = [0u8; 16];
     id.copy_from_slice(&m[4..20]);
     AppVerdict::Answer(Req::Stun { id, change_port })
